@@ -141,6 +141,56 @@ Fixpoint wrap_rounds (n : nat) (s : st) : option (R st) :=
            end
   end.
 
+(* the completions reaped between two io_uring_enter calls were all posted by
+   the kernel before the first of them is reaped: (op, buffer id, MORE, result) *)
+Fixpoint scan_batch (es : list ev3) : list (nat * option nat * bool * rescls) :=
+  match es with
+  | [] => []
+  | (kind, x, y) :: rest =>
+    match kind with
+    | 27%N => []
+    | 4%N =>
+      (nn x, match rest with (45%N, i, _) :: _ => Some (nn i) | _ => None end, true, dec_res y)
+      :: scan_batch rest
+    | 6%N =>
+      (nn x, match rest with (41%N, i, _) :: _ => Some (nn i) | _ => None end, false, dec_res y)
+      :: scan_batch rest
+    | _ => scan_batch rest
+    end
+  end.
+
+(* the kernel posts one completion; a selected buffer must be the ring head *)
+Definition kernel_post (s : st) (c : nat * option nat * bool * rescls) : option (R st) :=
+  let '(k, oid, more, r) := c in
+  match oid with
+  | Some id =>
+    match kernel_target s with
+    | Some t => if Nat.eqb t id then step s (LKernel k true more r) else None
+    | None => None
+    end
+  | None => step s (LKernel k false more r)
+  end.
+
+Fixpoint kernel_posts (s : st) (cs : list (nat * option nat * bool * rescls)) : option (R st) :=
+  match cs with
+  | [] => Some (Ok s)
+  | c :: r =>
+    match kernel_post s c with
+    | Some (Ok s') => kernel_posts s' r
+    | other => other
+    end
+  end.
+
+Definition count_sel (cs : list (nat * option nat * bool * rescls)) : nat :=
+  length (filter (fun c => match c with (_, Some _, _, _) => true | _ => false end) cs).
+
+Definition opt_eqb (a b : option nat) : bool :=
+  match a, b with
+  | Some x, Some y => Nat.eqb x y
+  | None, None => true
+  | _, _ => false
+  end.
+
 Definition set_st (a : ast) (s : st) : ast := mk_ast (Some s) (a_init a) (a_exp44 a) (a_drop a) (a_nsel a).
 
 Definition event (drv size : N) (a : ast) (e : ev3) (rest : list ev3) : verdict :=
@@ -158,7 +208,7 @@ Definition event (drv size : N) (a : ast) (e : ev3) (rest : list ev3) : verdict 
                 else VReject
       | Panic c => VPanic c
       end
-    | 1%N | 2%N | 3%N | 4%N | 5%N | 6%N | 16%N => VNext a 0   (* operations that do not use the pool yet *)
+    | 1%N | 2%N | 3%N | 4%N | 5%N | 6%N | 16%N | 27%N | 28%N => VNext a 0   (* operations that do not use the pool yet *)
     | _ => if (kind <? 100)%N then VReject else VNext a 0
     end
   | Some s =>
@@ -181,24 +231,38 @@ Definition event (drv size : N) (a : ast) (e : ev3) (rest : list ev3) : verdict 
       | None => VReject
       end
     | 3%N => with_steps a s [LSubmit id] 0
+    | 28%N =>
+      (* the polling driver has no kernel-side selection: completions are taken as they come *)
+      let cs := if uring s then scan_batch rest else [] in
+      match kernel_posts s cs with
+      | Some (Ok s') => VNext (mk_ast (Some s') (a_init a) (a_exp44 a) (a_drop a) (a_nsel a + count_sel cs)) 0
+      | Some (Panic c) => VPanic c
+      | None => VReject
+      end
+    | 27%N => match cq s with [] => VNext a 0 | _ => VReject end   (* everything posted was reaped *)
     | 4%N | 6%N =>
       let more := N.eqb kind 4 in
       let r := dec_res y in
       let sel_kind := if more then 45%N else 41%N in
-      match rest with
-      | (k2, x2, _) :: _ =>
-        if N.eqb k2 sel_kind && uring s then
-          (* the id the kernel handed out must be the ring head *)
-          match kernel_target s with
-          | Some t =>
-            if Nat.eqb t (nn x2)
-            then with_steps (mk_ast (a_st a) (a_init a) (a_exp44 a) (a_drop a) (S (a_nsel a))) s
-                            [LKernel id true more r; LCqe] 1
-            else VReject
-          | None => VReject
-          end
-        else with_steps a s [LKernel id false more r; LCqe] 0
-      | [] => with_steps a s [LKernel id false more r; LCqe] 0
+      let oid := match rest with
+                 | (k2, x2, _) :: _ => if N.eqb k2 sel_kind && uring s then Some (nn x2) else None
+                 | [] => None
+                 end in
+      let sk := match oid with Some _ => 1 | None => 0 end in
+      match cq s with
+      | c :: _ =>
+        (* posted at the last io_uring_enter: now reaped *)
+        if Nat.eqb (c_op c) id && opt_eqb (c_id c) oid && Bool.eqb (c_more c) more
+           && rescls_eqb (c_res c) r
+        then with_steps a s [LCqe] sk else VReject
+      | [] =>
+        (* completed without an enter (polling driver, synchronous completion) *)
+        match kernel_post s (id, oid, more, r) with
+        | Some (Ok s') =>
+          with_steps (mk_ast (a_st a) (a_init a) (a_exp44 a) (a_drop a) (a_nsel a + sk)) s' [LCqe] sk
+        | Some (Panic c) => VPanic c
+        | None => VReject
+        end
       end
     | 5%N | 16%N => VNext a 0
     | 41%N => with_steps a s [LTakeLoose id] 0
